@@ -207,6 +207,39 @@ def tmpl_subroutine(rng):
     return prog
 
 
+def tmpl_two_returns(rng):
+    """Rejection-sampled variant of _two_returns_once: keeps a candidate whose reference run really takes
+    two ♡ returns with no label jump in between (the generator uses the model only to SELECT workloads)."""
+    from .refinterp import Machine, Limits
+    prog = None
+    for _ in range(80):
+        prog = _two_returns_once(rng)
+        m = Machine(prog, '', Limits(steps=400))
+        o, e, end = m.run()
+        if not end.startswith('notadmitted') and m.st['heart_after_heart']:
+            break
+    return prog
+
+
+def _two_returns_once(rng):
+    """Data-driven call/return: several commands share one label key and several carry ♡, all conditional
+    on values popped from a preloaded stack, so that two ♡ returns can happen with no label jump between
+    them (the last jump source must then still be the LABEL jump's source)."""
+    data = [rng.choice([0, 0, 1, 5, 5, 70, 77, 84, 90]) for _ in range(rng.randint(8, 18))]
+    prog = [(0, 1, v, None) for v in data]
+    lab = rng.choice([2, 7])
+    n = rng.randint(3, 6)
+    forms_a = [lab, ('?', lab, None), ('?', lab, None), ('?', None, lab), ('!', lab, None)]
+    forms_b = [13, ('?', 13, None), ('?', 13, None), ('?', None, 13), ('!', None, 13)]
+    code = [(1, 1, 1, lab)]
+    for _ in range(n):
+        if rng.random() < 0.5:
+            code.append((1, 1, 1, rng.choice(forms_a)))
+        else:
+            code.append((1, 1, 2, rng.choice(forms_b)))
+    return prog + code
+
+
 def tmpl_fractions(rng):
     """Make fractions / negatives / NaN, compare them with ?/!, print them, leave some on stacks."""
     prog = []
@@ -346,6 +379,40 @@ def tmpl_pending_return(rng):
     return filler + p + between + mid + between + ret + tail
 
 
+def tmpl_label_table(rng):
+    """Several labels registered BEFORE the first input read, in an order that differs from the order of
+    their keys, separated by runs of area-less commands; after the read, data-driven jumps back to them
+    (the compiled program must translate every label of the pre-executed prefix to the right block)."""
+    from .refinterp import Machine, Limits
+    prog = None
+    for _ in range(60):
+        nl = rng.randint(2, 4)
+        keys = []
+        while len(keys) < nl:
+            k = (rng.choice([1, 2, 3, 4, 5, 6]), rng.choice([2, 3, 4, 7, 12]))
+            if k not in keys:
+                keys.append(k)
+        prog = []
+        for _ in range(rng.randint(2, 6)):
+            prog.append((0, 1, rng.choice([0, 0, 1, 2, 5, 9]), None))
+        for (pr, h) in keys:
+            for _ in range(rng.randint(0, 3)):
+                prog += rng.choice([[(0, 1, rng.randint(0, 9), None)], [(0, 1, 66, None), (1, 1, rng.choice([1, 2]), None)]])
+            prog.append((0, 1, pr, h))
+        prog += [(0, 1, 65, None), (1, 1, 1, None)] if rng.random() < 0.5 else []
+        prog += read_fragment(rng)
+        for _ in range(rng.randint(1, 3)):
+            pr, h = rng.choice(keys)
+            prog.append((0, 1, pr, ('?', None, rng.choice([('?', h, None), ('?', None, h), ('!', h, None), h]))))
+            if rng.random() < 0.5:
+                prog += [(0, 1, 67, None), (1, 1, 1, None)]
+        m = Machine(prog, 'ab\ncd\n', Limits(steps=600))
+        o, e, end = m.run()
+        if not end.startswith('notadmitted') and m.st['jump_back_over_first_read']:
+            break
+    return prog
+
+
 def _hearts_of(a):
     out = []
     stack = [a]
@@ -480,11 +547,13 @@ TEMPLATES = {
     'exit': lambda rng, ai: tmpl_exit(rng),
     'stacky': lambda rng, ai: gen_stacky(rng),
     'subroutine': lambda rng, ai: tmpl_subroutine(rng),
+    'two_returns': lambda rng, ai: tmpl_two_returns(rng),
 }
 INPUT_TEMPLATES = {
     'stack0': lambda rng, ai: tmpl_stack0(rng),
     'handover': lambda rng, ai: tmpl_handover(rng),
     'pending_return': lambda rng, ai: tmpl_pending_return(rng),
+    'label_table': lambda rng, ai: tmpl_label_table(rng),
 }
 
 
